@@ -53,6 +53,7 @@ type Scenario struct {
 	Bulk           int      `json:"bulk,omitempty"`       // >0: blocks of this many own-line comment lines are inserted (large files)
 	Light          bool     `json:"light,omitempty"`      // no very long comments (used with -d, whose parser trace is enormous)
 	AsciiHead      int      `json:"ascii_head,omitempty"` // >0: the first AsciiHead bytes of the file are pure ASCII (filler comment lines), non-ASCII comments only after
+	Straddle       int      `json:"straddle,omitempty"`   // a leading comment block sized so that a multi-byte character of a comment straddles this file offset (a buffer boundary)
 	Break          int      `json:"break,omitempty"`      // >0: token damage of kind Break-1 on line BreakLine (source must then fail to parse)
 	BreakLine      int      `json:"break_line,omitempty"`
 	Shape          string   `json:"argv_shape"` // none | src | src-dst | src-dst-lst | four | d-src-dst | v | help | badflag | d-only
@@ -276,6 +277,37 @@ func (s *Scenario) materialise0() (src []byte, plain []byte) {
 		}
 		return s.Enc
 	}
+	if s.Straddle > 0 && s.Enc != "ascii" && s.MixedEOL == 0 {
+		// filler comment lines, then one comment whose first multi-byte character begins just before the offset
+		start := s.Straddle - 1
+		if s.Enc == "utf8" && s.DecoSeed%2 == 1 {
+			start = s.Straddle - 2 // a 3-byte sequence can be cut after its first or its second byte
+		}
+		for start-size > 260 {
+			l := append([]byte(";"), bytes.Repeat([]byte{'a'}, 198)...)
+			dl = append(dl, l)
+			pl2 = append(pl2, []byte(""))
+			size += len(l) + len(nl)
+		}
+		if rem := start - size; rem >= 1 {
+			l := append([]byte(";"), bytes.Repeat([]byte{'b'}, rem-1)...)
+			for k := 0; k < 6; k++ {
+				ix := r.Intn(len(sjisAllU))
+				if s.Enc == "sjis" {
+					l = append(l, sjisAllS[2*ix], sjisAllS[2*ix+1])
+				} else {
+					ru := sjisAllU[ix]
+					if ru < 0x800 {
+						ru = 0x3042 // (a 3-byte character)
+					}
+					l = append(l, string(ru)...)
+				}
+			}
+			dl = append(dl, l)
+			pl2 = append(pl2, []byte(""))
+			size += len(l) + len(nl)
+		}
+	}
 	for size < s.AsciiHead { // ASCII-only head: the charset cannot be guessed from the beginning of the file
 		l := append([]byte("; "), commentText(r, "ascii", s.Light)...)
 		l = append(l, " -- filler line of plain ASCII text to move the first Japanese comment further down"...)
@@ -440,6 +472,11 @@ func (s *Scenario) buildWorld(W string, src []byte, image []byte) (*worldPaths, 
 	case "other_readable": // root-owned, readable only through the "other" permission bits
 		must(os.WriteFile(srcAbs, src, 0604))
 		os.Chmod(srcAbs, 0604)
+	case "parent_is_file": // ENOTDIR
+		must(os.WriteFile(filepath.Join(W, "in", "plainfile"), []byte("x"), 0644))
+		srcAbs = filepath.Join(W, "in", "plainfile", srcName)
+	case "trailing_slash": // an existing regular file named with a trailing slash: ENOTDIR
+		must(os.WriteFile(srcAbs, src, 0644))
 	case "relative", "dotslash":
 		must(os.WriteFile(srcAbs, src, 0644))
 	case "dotdot_via_symlink":
@@ -463,6 +500,9 @@ func (s *Scenario) buildWorld(W string, src []byte, image []byte) (*worldPaths, 
 		os.Chtimes(srcAbs, t, t) // ignored for kinds without a file
 	}
 	wp.SrcAbs, wp.SrcArg = srcAbs, srcAbs
+	if s.SrcKind == "trailing_slash" {
+		wp.SrcArg = srcAbs + "/"
+	}
 	switch s.SrcKind {
 	case "emptyarg":
 		wp.SrcArg = ""
@@ -577,6 +617,10 @@ func (s *Scenario) buildWorld(W string, src []byte, image []byte) (*worldPaths, 
 		} else {
 			must(os.Symlink(srcAbs, dstAbs))
 		}
+	case "symlink_loop": // ELOOP
+		other := filepath.Join(W, "out", "loop2")
+		must(os.Symlink(other, dstAbs))
+		must(os.Symlink(dstAbs, other))
 	case "dev_null":
 		dstAbs, dstArg = "/dev/null", "/dev/null"
 	case "trailing_slash": // "out/name/" cannot be created as a file
@@ -709,7 +753,7 @@ type expectation struct {
 
 func (s *Scenario) srcReadable() bool {
 	switch s.SrcKind {
-	case "missing", "dir", "dangling", "loop", "longname", "emptyarg":
+	case "missing", "dir", "dangling", "loop", "longname", "emptyarg", "parent_is_file", "trailing_slash":
 		return false
 	case "mode000":
 		return s.Uid == 0
@@ -719,12 +763,12 @@ func (s *Scenario) srcReadable() bool {
 
 func (s *Scenario) dstCreatable() bool {
 	switch s.DstKind {
-	case "parent_missing", "parent_is_file", "is_dir", "longname", "emptyarg", "trailing_slash":
+	case "parent_missing", "parent_is_file", "is_dir", "longname", "emptyarg", "trailing_slash", "symlink_loop":
 		return false
 	case "ro_file", "ro_dir", "dir_no_search":
 		return s.Uid == 0
 	case "absent", "":
-		if s.fsActive && s.Fs == "tmpfs_noinodes" && s.DstFd == "" {
+		if s.fsActive && s.Fs == "tmpfs_noinodes" && s.DstFd == "" && s.SrcKind != "same_as_dst" { // (same_as_dst: the file exists, it is the source)
 			return false // no inode left: the file cannot be created
 		}
 	}
